@@ -8,7 +8,91 @@ use crate::plan::SetCmd;
 use crate::refidx::ScriptKey;
 use crate::sim::Sim;
 
-pub fn c09_after_set_scripts(_ck: &mut Checker, _sim: &mut Sim, _cmd: &SetCmd, _list: &[(ScriptKey, u64)]) {}
+pub fn c09_after_set_scripts(ck: &mut Checker, sim: &mut Sim, cmd: &SetCmd, _list: &[(ScriptKey, u64)]) {
+    if sim.client.is_none() {
+        return;
+    }
+    if ck.snap.min_filtered > 0 || ck.snap.max_script_progress > 0 {
+        sim.stat("probe.c09.set_scripts_during_sync");
+    }
+    let c = sim.client.as_ref().unwrap();
+    // (1) get_scripts equals the README model right away
+    let got: std::collections::BTreeSet<(ScriptKey, u64)> = c
+        .storage
+        .get_filter_scripts()
+        .into_iter()
+        .map(|ss| {
+            (
+                ScriptKey::new(&ss.script, matches!(ss.script_type, crate::storage::ScriptType::Type)),
+                ss.block_number,
+            )
+        })
+        .collect();
+    let model: std::collections::BTreeSet<ScriptKey> =
+        ck.registered().into_iter().map(|(k, _)| k).collect();
+    let got_keys: std::collections::BTreeSet<ScriptKey> = got.iter().map(|(k, _)| k.clone()).collect();
+    let mut findings: Vec<(String, String)> = Vec::new();
+    if model != got_keys {
+        findings.push((
+            "script_set_differs_from_readme_model".into(),
+            format!(
+                "after set_scripts({:?}): get_scripts has {:?}, documented semantics give {:?}",
+                cmd,
+                got_keys.iter().map(|k| k.short()).collect::<Vec<_>>(),
+                model.iter().map(|k| k.short()).collect::<Vec<_>>()
+            ),
+        ));
+    }
+    // (2) pending matched blocks are discarded ...
+    let pending = c.storage.get_earliest_matched_blocks().is_some()
+        || c.peers.matched_blocks().try_read().map(|m| !m.is_empty()).unwrap_or(true);
+    let noop = matches!(cmd, SetCmd::Partial | SetCmd::Delete) && _list.is_empty();
+    if pending && !noop {
+        findings.push((
+            "pending_matched_blocks_not_discarded".into(),
+            format!("after set_scripts({:?}) a matched-blocks record or in-memory entry is still pending", cmd),
+        ));
+    }
+    // (3) ... and filter sync is rewound far enough for every script that is kept
+    let mf = c.storage.get_min_filtered_block_number();
+    let lagging: Vec<(String, u64)> = got
+        .iter()
+        .filter(|(_, n)| *n < mf)
+        .map(|(k, n)| (k.short(), *n))
+        .collect();
+    if !lagging.is_empty() && !noop {
+        findings.push((
+            "set_scripts_discards_pending_blocks_without_rewinding".into(),
+            format!(
+                "after set_scripts({:?}) MIN_FILTERED_NUMBER is {} but {:?} are recorded below it and no matched-blocks record is pending any more: the blocks in between are never examined for them",
+                cmd, mf, lagging
+            ),
+        ));
+    }
+    // (4) a no-op command (empty partial / delete list) must not desynchronise the in-memory
+    // matched-blocks map from the stored record
+    if noop {
+        let stored = c.storage.get_earliest_matched_blocks().is_some();
+        let mem_empty = c.peers.matched_blocks().try_read().map(|m| m.is_empty()).unwrap_or(false);
+        if stored && mem_empty {
+            findings.push((
+                "empty_set_scripts_clears_memory_but_keeps_the_stored_record".into(),
+                format!(
+                    "set_scripts({:?}, []) returned early in the store but cleared the in-memory matched blocks: the next filter batch without a match raises every script's block number past the still pending record",
+                    cmd
+                ),
+            ));
+        }
+    }
+    for (clause, detail) in findings {
+        let root = clause == "set_scripts_discards_pending_blocks_without_rewinding"
+            || clause == "empty_set_scripts_clears_memory_but_keeps_the_stored_record";
+        sim.violate("C09", &clause, detail);
+        if root {
+            sim.taint = Some(format!("C09/{}", clause));
+        }
+    }
+}
 pub fn c16_on_fetch_header(_ck: &mut Checker, _sim: &mut Sim, _h: &packed::Byte32, _r: Option<Result<Value, Value>>) {}
 pub fn c16_on_fetch_tx(_ck: &mut Checker, _sim: &mut Sim, _h: &packed::Byte32, _r: Option<Result<Value, Value>>) {}
 pub fn c16_on_get_tx(_ck: &mut Checker, _sim: &mut Sim, _h: &packed::Byte32, _r: Option<Result<Value, Value>>) {}
